@@ -386,6 +386,9 @@ pub fn run_c09(p: &Params) -> Outcome {
     // large vectors: views with dozens of items, sources beyond one imbl chunk (64)
     let gbig = AGen { maxlen: 110, init_max: 90, vmax: 400, max_ops: 30, ..g.clone() };
     out.merge(rand_adp("C09", p, "c09-rand-large", p.n(6_000, 200_000), &gbig, &|rng| (vec![gen_lim(rng, ALL_KINDS, BASIC_PKS, 100)], rng.chance(1, 2)), &nt));
+    // long histories on small vectors (accumulating state, repeated Resets, many limit changes)
+    let glong = AGen { min_ops: 150, max_ops: 400, caps: &[1, 2, 3, 5, 8, 16], ..g.clone() };
+    out.merge(rand_adp("C09", p, "c09-rand-long", p.n(1_200, 30_000), &glong, &|rng| (vec![gen_lim(rng, ALL_KINDS, BASIC_PKS, 8)], rng.chance(1, 2)), &nt));
     out
 }
 
@@ -449,6 +452,12 @@ pub fn run_c10(p: &Params) -> Outcome {
         let m = [0b0101u8, 0b1110, 0b0111, 0b1111, 0b0001][rng.below(5)];
         (vec![if rng.chance(1, 2) { Stage::Filter(m) } else { Stage::FilterMap(m) }], rng.chance(1, 2))
     }, &nt));
+    // long histories on small vectors (accumulating state, repeated Resets, many limit changes)
+    let glong = AGen { min_ops: 150, max_ops: 400, caps: &[1, 2, 3, 5, 8, 16], ..g.clone() };
+    out.merge(rand_adp("C10", p, "c10-rand-long", p.n(1_200, 30_000), &glong, &|rng| {
+        let m = rng.below(16) as u8;
+        (vec![if rng.chance(1, 2) { Stage::Filter(m) } else { Stage::FilterMap(m) }], rng.chance(1, 2))
+    }, &nt));
     out
 }
 
@@ -509,6 +518,9 @@ pub fn run_c11(p: &Params) -> Outcome {
     // large vectors: views with dozens of items, sources beyond one imbl chunk (64)
     let gbig = AGen { maxlen: 110, init_max: 90, vmax: 400, max_ops: 30, ..g.clone() };
     out.merge(rand_adp("C11", p, "c11-rand-large", p.n(6_000, 200_000), &gbig, &|rng| (vec![*rng.pick(&[Stage::Sort, Stage::SortBy, Stage::SortByKey])], rng.chance(1, 2)), &nt));
+    // long histories on small vectors (accumulating state, repeated Resets, many limit changes)
+    let glong = AGen { min_ops: 150, max_ops: 400, caps: &[1, 2, 3, 5, 8, 16], ..g.clone() };
+    out.merge(rand_adp("C11", p, "c11-rand-long", p.n(1_200, 30_000), &glong, &|rng| (vec![*rng.pick(&[Stage::Sort, Stage::SortBy, Stage::SortByKey])], rng.chance(1, 2)), &nt));
     out
 }
 
@@ -594,7 +606,22 @@ pub fn run_c12(p: &Params) -> Outcome {
         p.n(100_000, 3_000_000),
         &g,
         &|rng| {
-            let n = rng.range(2, 3);
+            let n = if rng.chance(1, 8) { 4 } else { rng.range(2, 3) };
+            ((0..n).map(|_| gen_stage(rng, ALL_PKS, 6)).collect(), rng.chance(1, 2))
+        },
+        &nt,
+    ));
+    // long histories on small vectors: state that accumulates over hundreds of operations, repeated
+    // Resets, many limit changes
+    let glong = AGen { min_ops: 150, max_ops: 400, caps: &[1, 2, 3, 5, 8, 16], ..g.clone() };
+    out.merge(rand_adp(
+        "C12",
+        p,
+        "c12-rand-long",
+        p.n(1_500, 40_000),
+        &glong,
+        &|rng| {
+            let n = rng.range(1, 3);
             ((0..n).map(|_| gen_stage(rng, ALL_PKS, 6)).collect(), rng.chance(1, 2))
         },
         &nt,
@@ -901,5 +928,8 @@ pub fn run_c15(p: &Params) -> Outcome {
     // large vectors: views with dozens of items, sources beyond one imbl chunk (64)
     let gbig = AGen { maxlen: 110, init_max: 90, vmax: 400, max_ops: 30, ..g.clone() };
     out.merge(rand_adp("C15", p, "c15-rand-large", p.n(6_000, 200_000), &gbig, &|rng| (vec![gen_lim(rng, &[Kind::Head, Kind::Tail], &[PK::Static], 90)], rng.chance(1, 2)), &nt));
+    // long histories on small vectors (accumulating state, repeated Resets, many limit changes)
+    let glong = AGen { min_ops: 150, max_ops: 400, caps: &[1, 2, 3, 5, 8, 16], ..g.clone() };
+    out.merge(rand_adp("C15", p, "c15-rand-long", p.n(1_200, 30_000), &glong, &|rng| (vec![gen_lim(rng, &[Kind::Head, Kind::Tail], &[PK::Static], 8)], rng.chance(1, 2)), &nt));
     out
 }
